@@ -24,6 +24,7 @@ structure Key where
   revoke : Bool      -- Flags & DNSKEYFlagRevoke (0x0080)
   other : Nat        -- Flags with those two bits cleared (0x0100 = ZONE)
   tag : Nat          -- dnssec.KeyTag
+  owner : Nat := 0   -- owner name of the record: 0 = "." (the root), n > 0 = some other name
 deriving DecidableEq, Repr, Inhabited
 
 /-- `type State int` -/
@@ -60,11 +61,26 @@ structure Disk where
   tomb : FileC (List Nat) := .absent
 deriving DecidableEq, Repr
 
-/-- the answer of the `. DNSKEY` query. -/
-structure Fetch where
-  keys : List Key      -- DNSKEY records, answer order
-  signers : List Key   -- keys with a valid RRSIG over exactly this RRset
+/-- any other RRset of the answer section besides the root's DNSKEY RRset: a
+DNSKEY RRset under another owner name (`keys`), or an RRset of another type
+(`keys = []`). `signers`: keys with a valid RRSIG (signer name ".") that covers
+exactly this RRset. -/
+structure Extra where
+  keys : List Key := []
+  signers : List Key := []
 deriving DecidableEq, Repr
+
+/-- the answer section of the `. DNSKEY` query, RRset by RRset. -/
+structure Fetch where
+  keys : List Key      -- the DNSKEY records owned by ".", answer order
+  signers : List Key   -- keys with a valid RRSIG (signer name ".") over exactly that RRset
+  extras : List Extra := []   -- every other RRset of the answer section, answer order
+deriving DecidableEq, Repr
+
+/-- every DNSKEY record of the answer section, whatever its owner:
+`ExtractRRSet(rrs, "", TypeDNSKEY)` and the `for _, rr := range resp.Answer`
+loop that builds `kskFetched` do not look at owner names. -/
+def Fetch.all (f : Fetch) : List Key := f.keys ++ f.extras.flatMap (·.keys)
 
 /-- read / write faults of one run (`true` = the operation fails). -/
 structure Faults where
@@ -120,7 +136,26 @@ def zoneBit (k : Key) : Bool := (k.other / 256) % 2 == 1
 /-- some RRSIG verifies under `k`: same key tag (`sig.KeyTag`), same public
 key, usable as a zone key (`verifyOneSigWithWork`). -/
 def signedBy (signers : List Key) (k : Key) : Bool :=
-  zoneBit k && signers.any (fun s => s.mat == k.mat && s.tag == k.tag)
+  zoneBit k && k.owner == 0 && signers.any (fun s => s.mat == k.mat && s.tag == k.tag)
+
+/-- `dnssec.VerifyRRSIGWithWork(rootzone, keys, msg)` over the whole answer
+section: EVERY RRset in it (all names are inside "."), not only the DNSKEY
+RRset that was asked for, must carry an RRSIG that verifies under one of `ks`. -/
+def coveredBy (f : Fetch) (ks : List Key) : Bool :=
+  (f.keys.isEmpty || ks.any (signedBy f.signers)) &&
+  f.extras.all (fun e => ks.any (signedBy e.signers))
+
+/-- `Resolver.verifyRootKeys`: how validation uses the live trust set. The keys
+with `Flags == 257` of `r.rootKeys` must cover every RRset of the root DNSKEY
+response; with no such key (`ErrTrustAnchorsUnavailable`, e.g. the set was
+cleared) nothing validates: the lookup fails, it is never answered unvalidated. -/
+def validates (live : List Key) (f : Fetch) : Bool :=
+  let ks := live.filter (fun k => k.sep && !k.revoke && k.other == 256)
+  !ks.isEmpty && !f.all.isEmpty && coveredBy f ks
+
+/-- `revocationIsSelfSignedWithWork`: the whole answer section verifies under
+the revoked key alone (zone = that key's owner name). -/
+def selfSigned (f : Fetch) (k : Key) : Bool := coveredBy f [k]
 
 /-- first-run fallback: seed `kskCurrent` from `r.rootKeys`. -/
 def seedFromLive (live : List Key) (now : Nat) : List TA :=
@@ -153,16 +188,16 @@ def candidate (cur : List TA) : List Key :=
 
 /-- `revokedBootstrap` of `verifyFetchedKeysWithWork`. -/
 def bootstrap (current : List Key) (f : Fetch) : List Key :=
-  f.keys.filter (fun k => k.revoke &&
+  f.all.filter (fun k => k.revoke &&
     current.any (fun c => c.tag == tagSub128 k.tag && sameKeyExceptRevoke c k))
 
 /-- `verifyFetchedKeysWithWork(candidate, resp.Answer)` -/
 def verifyFetched (cand : List Key) (f : Fetch) : Auth :=
-  if f.keys.isEmpty then .none else
+  if f.all.isEmpty then .none else
   let current := cand.filter (·.sep)
   if current.isEmpty then .none
-  else if current.any (signedBy f.signers) then .full
-  else if (bootstrap current f).any (signedBy f.signers) then .revOnly
+  else if coveredBy f current then .full
+  else if !(bootstrap current f).isEmpty && coveredBy f (bootstrap current f) then .revOnly
   else .none
 
 /-- `kskFetched`: SEP keys of the answer by tag, a later record replaces an
@@ -186,17 +221,17 @@ def sameAsExisting (cur : List TA) (k : Key) : Bool :=
 
 /-- one iteration of `stageRevocationSelfSignatures`: is the revocation carried
 by fetched key `k` actionable and self-signed? -/
-def stageOne (cur : List TA) (tomb : List Nat) (signers : List Key) (k : Key) : Bool :=
+def stageOne (cur : List TA) (tomb : List Nat) (f : Fetch) (k : Key) : Bool :=
   k.revoke && !tomb.contains k.mat && !sameAsExisting cur k &&
   (match lookup cur (tagSub128 k.tag) with
-   | some old => isTrusted old.st && sameKeyExceptRevoke old.key k && signedBy signers k
+   | some old => isTrusted old.st && sameKeyExceptRevoke old.key k && selfSigned f k
    | none => false)
 
 /-- the fetched keys `k` with `revocationSelfSigned[k.tag] == true` (the Go map
 is indexed by tag; `kskFetched` holds exactly one key per tag, so indexing by
 the fetched key is the same thing). -/
-def stage (cur : List TA) (tomb : List Nat) (signers : List Key) (fetched : List Key) : List Key :=
-  fetched.filter (stageOne cur tomb signers)
+def stage (cur : List TA) (tomb : List Nat) (f : Fetch) (fetched : List Key) : List Key :=
+  fetched.filter (stageOne cur tomb f)
 
 /-- `oldTA.State = StateRevoked; oldTA.FirstSeen = time.Now()` on the entry
 `kskCurrent[t]` (the first and, in a Go map, only entry with that tag). -/
@@ -252,6 +287,9 @@ structure Result where
   cand : List Key := []       -- pre-fetch candidate = the anchors used to authenticate
   revoked : List Nat := []    -- materials whose revocation was accepted by this run
   curFinal : List TA := []    -- kskCurrent at the end of the run (before marker cleanup)
+  /-- `r.rootKeys` while the DNSKEY query is in flight (after the pre-fetch
+  publication); `none`: the run returned before it. -/
+  pre : Option (List Key) := none
 deriving Repr
 
 /-- `kskCurrent` after the state read / reseed. -/
@@ -285,8 +323,8 @@ def prepare (cfg : List Key) (cur0 : List TA) (tomb0 : List Nat) (now : Nat) : L
 
 /-- the part of `AutoTA` after a successfully authenticated fetch. -/
 def process (P : Params) (f : Fetch) (revOnly : Bool) (now : Nat) (cur : List TA) (tomb : List Nat) : Loop :=
-  let fetched := sortByTag (fetchedMap f.keys)
-  let staged := stage cur tomb f.signers fetched
+  let fetched := sortByTag (fetchedMap f.all)
+  let staged := stage cur tomb f fetched
   let l := fetched.foldl (procFetched staged revOnly now) { cur := cur, tomb := tomb }
   if revOnly then l else { l with cur := holdDown P (fetched.map (·.tag)) now l.cur }
 
@@ -306,7 +344,7 @@ def finish (fl : Faults) (live1 : List Key) (a : Auth) (cand : List Key) (l : Lo
     else candidate cur'
   { live := live', writes := writes,
     outcome := if tombErr || stateErr then .perr else .ok,
-    auth := a, cand := cand, revoked := l.revoked, curFinal := l.cur }
+    auth := a, cand := cand, revoked := l.revoked, curFinal := l.cur, pre := some live1 }
 
 /-- `func (r *Resolver) AutoTA()` -/
 def autoTA (P : Params) (cfg : List Key) (d : Disk) (live : List Key) (f : Option Fetch)
@@ -320,10 +358,10 @@ def autoTA (P : Params) (cfg : List Key) (d : Disk) (live : List Key) (f : Optio
     let cand := candidate cur
     let live1 := if priorTrustValid then cand else live
     match f with
-    | none => { live := live1, outcome := .verr, cand := cand, curFinal := cur }
+    | none => { live := live1, outcome := .verr, cand := cand, curFinal := cur, pre := some live1 }
     | some f =>
       match verifyFetched cand f with
-      | .none => { live := live1, outcome := .verr, cand := cand, curFinal := cur }
+      | .none => { live := live1, outcome := .verr, cand := cand, curFinal := cur, pre := some live1 }
       | a => finish fl live1 a cand (process P f (a == .revOnly) now cur tomb)
 
 def applyWrite (d : Disk) : Write → Disk
@@ -355,6 +393,10 @@ inductive Ev where
   /-- one `AutoTA` run; `crash = some k`: the process dies after `k` of the
   run's file replacements have landed. -/
   | run (f : Option Fetch) (fl : Faults) (crash : Option Nat)
+  /-- `NewResolver` alone: a new process exists and has not refreshed yet; its
+  trust set is the configured keys as they are (`run()` calls `checkPriming`
+  before the first `AutoTA`). -/
+  | boot
 deriving DecidableEq, Repr
 
 /-- live set a run starts from: `NewResolver` copies `cfg.RootKeys`. -/
@@ -370,6 +412,7 @@ def step (P : Params) (cfg : List Key) (s : Sys) : Ev → Sys
   | .damage .state => { s with disk := { s.disk with state := .corrupt } }
   | .damage .tombEmpty => { s with disk := { s.disk with tomb := .empty } }
   | .damage .stateEmpty => { s with disk := { s.disk with state := .empty } }
+  | .boot => { s with proc := some cfg }
   | .run f fl crash =>
     let r := runResult P cfg s f fl
     match crash with
